@@ -957,7 +957,6 @@ def r8(ctx):
                 continue
             a = init.node.args
             params = [x.arg for x in a.posonlyargs + a.args + a.kwonlyargs if x.arg not in ("self", "cls")]
-            kwname = a.kwarg.arg if a.kwarg is not None else None
             from ..astutil import func_defaults
             defaults = func_defaults(init.node)
             # sinks: keyword `p=<v>` of a call, `<dict>["p"] = <v>`
